@@ -177,6 +177,8 @@ def new_cpu(overrides=None, hooked=False, mems=None):
 
 
 RNAMES = {r.name: r for r in RName}
+from vf.ref.snapshot_keys import KEYS  # noqa: E402
+_IDX = __import__('re').compile(r'\[\d+\]')
 _REG_KINDS = {}
 
 # ---------------------------------------------------------------------------------------------- snapshot / apply
@@ -215,6 +217,9 @@ def snapshot(cpu, with_mem=True):
         out['excl'] = tuple(cpu.mon) if cpu.mon else None        # local exclusive monitor of the hooked flavour
     out['wfe'] = cpu.is_wait_for_event
     out['wfi'] = cpu.is_wait_for_interrupt
+    # only architectural state (the register-file attributes of the pinned tree, vf/ref/snapshot_keys.py): an attribute added later - a cache, a counter, a
+    # consumed-flag - is implementation detail; the checks judge what it does to the architectural state, not its own value
+    out = {k: v for k, v in out.items() if k in KEYS or _IDX.sub('[]', k) in KEYS}
     if with_mem:
         for i, mc in enumerate(cpu.mem.memories):
             out['mem%d' % i] = bytes(mc.mem.memory_array)
